@@ -385,7 +385,7 @@ func ruleDur2(c *Ctx, r *Reporter) {
 				return
 			}
 			n++
-			r.check(outermost(fn) == atomic, funcName(fn)+":"+name, c.pos(in.Pos()), "inside AtomicWriteFile", "the file system is modified outside AtomicWriteFile (bypasses the atomic write protocol)")
+			r.check(inCone(atomic, outermost(fn)), funcName(fn)+":"+name, c.pos(in.Pos()), "inside AtomicWriteFile", "the file system is modified outside AtomicWriteFile (bypasses the atomic write protocol)")
 		})
 	}
 	r.guard(n, 4, "file-system mutating calls")
@@ -616,8 +616,14 @@ func ruleDur4(c *Ctx, r *Reporter) {
 				r.ok(key, c.pos(in.Pos()), "error value is consumed (tested or returned)")
 				return
 			}
-			if why, ok := allowed[closureNeutral(funcName(fn))+"|"+name]; ok {
-				r.trivial(key, c.pos(in.Pos()), "listed exception: "+why)
+			listed := false
+			for _, owner := range ownerNames(fn, funcName) {
+				if why, ok := allowed[owner+"|"+name]; ok && !listed {
+					r.trivial(key, c.pos(in.Pos()), "listed exception: "+why)
+					listed = true
+				}
+			}
+			if listed {
 				return
 			}
 			r.bad(key, c.pos(in.Pos()), "error result is dropped on the persist/load path")
